@@ -1283,11 +1283,12 @@ def one_history(ctx, r, nops, out):
 
 def run(ctx):
     r = ctx.rng
-    nhist = ctx.scale(700, 20000)
+    nhist = ctx.scale(1400, 30000)
     ctx.rule = ('random histories (<= 30 ops) of public CQM mutators: add_variable, set_objective (model / iterable), add_constraint '
                 '(model, comparison, iterable; copy and move; hard and soft, both penalties), add_discrete (3 forms), remove/fix/flip/'
                 'change_vartype/relabel variables, fix_variables in place and copying, spin_to_binary, remove_constraint (cascade), '
-                'relabel_constraints, bounds, mutation through objective / constraint views, deepcopy; every variable sits in a random '
+                'relabel_constraints, bounds, mutation through objective / constraint views, deepcopy, the copy-returning calls (inplace=False, trivial arguments too) '
+                'with the history continued on either object, add_variables, clear, substitute_self_loops, the add_*_from_* methods called directly; every variable sits in a random '
                 'subset of the expressions; a case = one operation; non-trivial = state changed or the call raised; distinct by (op line, state before)')
     out = []
     for _ in range(nhist):
